@@ -463,7 +463,7 @@ func (f *Filter) HashMatchAny(key [KeySize]byte, data [][]byte) (bool, error) {
 	b := bstream.NewBStreamReader(filterData)
 
 	var (
-		values    = make(map[uint32]struct{}, f.N())
+		values    = make(map[uint64]struct{}, f.N())
 		lastValue uint64
 	)
 
@@ -476,7 +476,7 @@ func (f *Filter) HashMatchAny(key [KeySize]byte, data [][]byte) (bool, error) {
 		value, err := f.readFullUint64(b)
 		if err == nil {
 			lastValue += value
-			values[uint32(lastValue)] = struct{}{}
+			values[lastValue] = struct{}{}
 			continue
 		} else if err == io.EOF {
 			break
@@ -501,7 +501,7 @@ func (f *Filter) HashMatchAny(key [KeySize]byte, data [][]byte) (bool, error) {
 		// of our modulus.
 		v = fastReduction(v, nphi, nplo)
 
-		if _, ok := values[uint32(v)]; !ok {
+		if _, ok := values[v]; !ok {
 			continue
 		}
 
